@@ -22,7 +22,13 @@ if ! git -C $S/repo apply "$patch" 2>/dev/null; then
   if ! git -C $S/repo apply --3way "$patch" >/dev/null 2>&1; then echo "SELFTEST patch does not apply: $patch"; exit 2; fi
   git -C $S/repo reset -q
 fi
-( cd $S/harness && cargo build --release --offline -q 2>&1 | grep -E "^error" -A8; cargo build --profile shipped --offline -q 2>&1 | grep -E "^error" -A8 )
+# a failed build must never fall back to the binary of an earlier job
+if ! ( cd $S/harness && cargo build --release --offline -q >$S/build.log 2>&1 && cargo build --profile shipped --offline -q >>$S/build.log 2>&1 ); then
+  grep -E "^error" -A8 $S/build.log | head -30
+  for p in "$@"; do echo "SELFTEST $(basename "$patch") $p: BUILD-FAILED (the change or the harness does not compile)"; done
+  git -C $S/repo reset -q --hard
+  exit 2
+fi
 rc=0
 for p in "$@"; do
   out=$(cd $S/harness && RV_ROOT=$S VERIF_SEED=$SEED ./target/release/rv "$p" --tier "$TIER" 2>&1)
